@@ -76,6 +76,7 @@ func c07(r *Run) {
 	returned := map[string]int{} // marker -> how many calls returned it
 	span := time.Duration(ch.Range(1, 6, "span.s")) * time.Second
 
+	var send func(c *c07call, kind int)
 	r.Tap = func(wr *core.Write) bool {
 		if wr.D == nil {
 			return false
@@ -110,13 +111,36 @@ func c07(r *Run) {
 		}
 		c.t, c.haveT = t, true
 		c.writes = append(c.writes, wr.At)
+		if wr.Parked {
+			// the datagram is out but WriteTo has not returned: answer it now, let the write return later
+			r.Probe("reply-before-write-returns")
+			r.FaultHit("parked-write")
+			r.After(time.Duration(1+r.Rng.Intn(1000)), "early-reply", func() { send(c, 0) })
+			r.After(time.Duration(2000+r.Rng.Intn(int(delay))), "release-write", func() { r.ReleaseWrite(wr) })
+		}
 		return false
 	}
 
+	parkFirst := map[string]bool{}
+	conn.Park = func(i int, b []byte, to net.Addr) bool {
+		d, err := benc.DecodeDict(b)
+		if err != nil {
+			return false
+		}
+		a, _ := d.Dict("a")
+		mk, _ := a.Str("target")
+		if parkFirst[mk] {
+			delete(parkFirst, mk)
+			return true
+		}
+		return false
+	}
 	inFlight := func() int {
 		n := 0
 		for _, c := range calls {
-			if c.call != nil && !r.CallDone(c.call) {
+			// a call whose matching reply has arrived is no longer pending even if it has
+			// not returned yet (its sender may still be inside a socket write)
+			if c.call != nil && !r.CallDone(c.call) && !c.decided {
 				n++
 			}
 		}
@@ -145,7 +169,7 @@ func c07(r *Run) {
 		return string(buf[:m])
 	}
 	mseq := 0
-	send := func(c *c07call, kind int) {
+	send = func(c *c07call, kind int) {
 		if !c.haveT {
 			return
 		}
@@ -228,6 +252,9 @@ func c07(r *Run) {
 		c.marker = r.RandID()
 		calls = append(calls, c)
 		byMarker[string(c.marker[:])] = c
+		if ch.Chance(1, 6, "call.parkfirst") {
+			parkFirst[string(c.marker[:])] = true
+		}
 		at := time.Duration(r.Rng.Int63n(int64(span)))
 		r.After(at, "call", func() {
 			r.Logf("start call %d %s to %s tries=%d", c.idx, c.method, c.dest, c.tries)
